@@ -52,3 +52,66 @@ func (it *MapIterator[K, V]) Next() bool {
 
 func (it *MapIterator[K, V]) Key() K { return it.k }
 func (it *MapIterator[K, V]) Val() V { return it.v }
+
+// Maps whose key type has no order (interface values, pointers, structs): vinstr
+// notes every key at the assignment that inserts it (NoteKey) and iterates such a
+// map in order of first insertion within the current execution (RangeMapAny). Keys
+// that were never noted (inserted by code outside the instrumented packages) come
+// last, in Go's order.
+var (
+	keySeq map[any]uint64
+	keyCtr uint64
+)
+
+func resetKeySeq() { keySeq, keyCtr = nil, 0 }
+
+// NoteKey records the first time a key is inserted into an unordered-key map.
+func NoteKey(k any) {
+	if keySeq == nil {
+		keySeq = map[any]uint64{}
+	}
+	if _, ok := keySeq[k]; !ok {
+		keyCtr++
+		keySeq[k] = keyCtr
+	}
+}
+
+// AnyIterator is the state of one rewritten range statement over an unordered-key map.
+type AnyIterator[K comparable, V any] struct {
+	m    map[K]V
+	keys []K
+	i    int
+	k    K
+	v    V
+}
+
+// RangeMapAny starts an iteration in order of first insertion.
+func RangeMapAny[K comparable, V any](m map[K]V) *AnyIterator[K, V] {
+	keys := make([]K, 0, len(m))
+	for k := range m {
+		keys = append(keys, k)
+	}
+	seq := func(k K) uint64 {
+		if s, ok := keySeq[any(k)]; ok {
+			return s
+		}
+		return ^uint64(0)
+	}
+	slices.SortStableFunc(keys, func(a, b K) int { return cmp.Compare(seq(a), seq(b)) })
+	return &AnyIterator[K, V]{m: m, keys: keys}
+}
+
+func (it *AnyIterator[K, V]) Next() bool {
+	for it.i < len(it.keys) {
+		k := it.keys[it.i]
+		it.i++
+		if v, ok := it.m[k]; ok {
+			it.k, it.v = k, v
+			return true
+		}
+	}
+	return false
+}
+
+func (it *AnyIterator[K, V]) Key() K { return it.k }
+func (it *AnyIterator[K, V]) Val() V { return it.v }
